@@ -2,3 +2,6 @@ import TensoraVerif.Model.Sexp
 import TensoraVerif.Model.Storage
 import TensoraVerif.Lemmas.Storage
 import TensoraVerif.Props.C09
+import TensoraVerif.Model.IR
+import TensoraVerif.Model.Machine
+import TensoraVerif.Model.IRWire
